@@ -179,8 +179,8 @@ PROPS = {
         'assumptions': ['well-formed = exactly the prescribed length (R6), text ranges well-formed UTF-8 (R5)'],
     },
     'C08': {
-        'source_transfer': ['TransferTypes'],
-        'source_tie': ['Types'],
+        'source_transfer': ['TransferTypes', 'TransferValget'],
+        'source_tie': ['Types', 'CfgKeyData', 'CfgItem', 'Valget'],
         'jobs': [{'component': 'fields', 'profile': 'decode', 'quick': 30, 'thorough': 400},
                  {'component': 'ch', 'profile': 'all-text', 'quick': 1, 'thorough': 1},
                  {'component': 'ch', 'profile': 'random', 'quick': 500, 'thorough': 5000},
@@ -201,8 +201,8 @@ PROPS = {
         'assumptions': ['R2: in-range is relative to the signedness the key table gives the key; R12: size codes 1..5'],
     },
     'C14': {
-        'source_transfer': ['TransferCfg'],
-        'source_tie': ['CfgKeyData', 'CfgItem'],
+        'source_transfer': ['TransferCfg', 'TransferValget'],
+        'source_tie': ['CfgKeyData', 'CfgItem', 'Types', 'Valget'],
         'jobs': [{'component': 'key', 'profile': 'codec', 'quick': 750, 'thorough': 5000},
                  {'component': 'valset', 'profile': 'valget', 'quick': 450, 'thorough': 3000}],
         'exhaustive_note': 'size code 0..7 x available value bytes 0..9 x 4 value patterns x reserved bits set/clear',
